@@ -1,8 +1,8 @@
 (* Extract/E_C13.v — wire entry for C13 (glue, not trusted for theorems).
-   case  [1; lkind; rkind; op; store; tables]   binary   kinds: 0..5 field classes, 6 ndarray,
+   case  [1; lkind; rkind; op; store; tables; lunw; runw]   binary (l/runw: that field operand was never written)   kinds: 0..5 field classes, 6 ndarray,
                                                  7 numpy scalar, 8 Python scalar, 9 (right only) the
                                                  very same field object as the left operand
-         [2; cls; uop; store; tables]            unary    uop: 16 invert, 17 logical_not
+         [2; cls; uop; store; tables; unw]       unary    uop: 16 invert, 17 logical_not
    tables: 0 = repo_tables (tree after fix F-C13a), 1 = orig_tables (class flags of the pinned commit)
    answer [model; spec]   outcome = [1; heap; results; stored] | [0; exception code];  spec = [] when the
    case is outside the property's scope. *)
@@ -26,11 +26,14 @@ Fixpoint enc_sym (s:sym) : val :=
   | SProj i a b => VL [VZ 3; VZ i; enc_sym a; enc_sym b]
   | SItem a => VL [VZ 4; enc_sym a]
   | SCast nf a => VL [VZ 5; enc_sym nf; enc_sym a]
+  | SEmptyOf i => VL [VZ 6; VZ i]
+  | SEmptyLike a => VL [VZ 7; enc_sym a]
   end.
 Definition enc_nf (n:symnf) : val :=
   match n with NfGiven c => VL [VZ 0; VZ c] | NfOf a => VL [VZ 1; enc_sym a] end.
 Definition enc_field (f:fieldobj sym symnf) : val :=
-  VL [VZ (cls_code (fo_cls _ _ f)); enc_nf (fo_nformat _ _ f); enc_sym (fo_data _ _ f)].
+  VL [VZ (cls_code (fo_cls _ _ f)); enc_nf (fo_nformat _ _ f);
+      match fo_data _ _ f with Some a => VL [enc_sym a] | None => VL [] end].
 Definition enc_value (v:value sym) : val :=
   match v with
   | VField id => VL [VZ 0; VZ (Z.of_nat id)]
@@ -48,9 +51,10 @@ Definition enc_outcome (r:res (outcome sym symnf)) : val :=
   end.
 
 (* operand i (0 left, 1 right) of kind code k, appended to the heap when it is a field *)
-Definition mk_operand (h:heap sym symnf) (i k:Z) : option (heap sym symnf * value sym) :=
+Definition mk_operand (h:heap sym symnf) (i k unw:Z) : option (heap sym symnf * value sym) :=
   match cls_of_code k with
-  | Some c => Some (h ++ [mkfield sym symnf c (NfGiven i) (SOperand i)], VField (length h))
+  | Some c => Some (h ++ [mkfield sym symnf c (NfGiven i) (if unw =? 0 then Some (SOperand i) else None)],
+                    VField (length h))
   | None =>
     match k with
     | 6 => Some (h, VNd (SOperand i))
@@ -71,10 +75,10 @@ Definition kind_of_code (k:Z) : option kind :=
 
 Definition entry_C13 (v:val) : val :=
   match v with
-  | VL [VZ 1; VZ lk; VZ rk; VZ oc; VZ st; VZ tb] =>
-      match mk_operand [] 0 lk, bop_of_code oc, tables_of tb with
+  | VL [VZ 1; VZ lk; VZ rk; VZ oc; VZ st; VZ tb; VZ lunw; VZ runw] =>
+      match mk_operand [] 0 lk lunw, bop_of_code oc, tables_of tb with
       | Some (h0, lhs), Some o, Some T =>
-          let second := if rk =? 9 then (if lk <? 6 then Some (h0, lhs) else None) else mk_operand h0 1 rk in
+          let second := if rk =? 9 then (if lk <? 6 then Some (h0, lhs) else None) else mk_operand h0 1 rk runw in
           match second, kind_of_code lk, kind_of_code (if rk =? 9 then lk else rk) with
           | Some (h, rhs), Some kl, Some kr =>
               let store := negb (st =? 0) in
@@ -84,10 +88,10 @@ Definition entry_C13 (v:val) : val :=
           end
       | _, _, _ => vbad
       end
-  | VL [VZ 2; VZ k; VZ uc; VZ st; VZ tb] =>
+  | VL [VZ 2; VZ k; VZ uc; VZ st; VZ tb; VZ unw] =>
       match cls_of_code k, uop_of_code uc, tables_of tb with
       | Some c, Some u, Some T =>
-          let h := [mkfield sym symnf c (NfGiven 0) (SOperand 0)] in
+          let h := [mkfield sym symnf c (NfGiven 0) (if unw =? 0 then Some (SOperand 0) else None)] in
           let store := negb (st =? 0) in
           VL [enc_outcome (sym_run_unop T h (VField 0) u store);
               if supported_u c u then enc_outcome (sym_spec_unop h (VField 0) u store) else VL []]
